@@ -1073,6 +1073,10 @@ class Models:
             if not memo[(a, b)]:
                 I.raise_("KeyError", node)
             return TupleV([Num(RF.atom(("tf", a, b)), "exact"), Num(RF.atom(("to", a, b)), "exact")])
+        if isinstance(key, TupleV) and any(k_ is key for k_ in getattr(g, "hit_keys", [])):
+            o = OpaqueV("cache-hit")
+            o.key = key
+            return o
         if isinstance(key, TupleV):
             # operation cache: hit == recomputation by the cache discipline (rule R17.1); Engine A follows the miss
             if self.cache_hits:
@@ -1084,6 +1088,7 @@ class Models:
             I.raise_("KeyError", node)
         if isinstance(key, (StrV, OpaqueV)):
             c = I.choose(2, f"{g.name}[{key!r}]@{getattr(node, 'lineno', '?')}", ["KeyError", "found"])
+            st.effects.append(("symlookup", g, key, bool(c), self.where(node)))
             if c == 0:
                 I.raise_("KeyError", node)
             owner = getattr(g, "owner", None)
